@@ -252,6 +252,10 @@ func (s *stream) corruptFramedMy(pick int, mask byte, tiny int) bool {
 	f := frames[pick%len(frames)]
 	if tiny >= 100 {
 		tiny -= 100
+		// statement execution: cut around the ends of its fixed header, NULL bitmap, flag and types
+		if f.end > f.payload && s.inflight[f.payload] == 0x17 && tiny%2 == 0 {
+			tiny = 9 + (tiny/2)%8
+		}
 	}
 	if tiny >= 0 {
 		keep := min(tiny, f.end-f.payload)
